@@ -386,6 +386,27 @@ FieldSizes(fs) == [i \in 1..Len(fs) |-> IF fs[i].k = "f64" THEN 8 ELSE Len(fs[i]
 StandIn(n) == [i \in 1..n |-> (i * 37) % 256]
 
 -----------------------------------------------------------------------------
+(* Receiver.  Decode writes into a value that may already hold a previously *)
+(* decoded value.  Decode is a function of the bytes alone: every component *)
+(* of the receiver, including the derived ones (vertex and edge counts, the  *)
+(* cumulative edge table of polygons with more than 12 loops, the hole      *)
+(* flag), is assigned from the decoded loops; nothing survives from before. *)
+
+IsFullP(loops) == Len(loops) = 1 /\ Len(loops[1].vs) = 1 /\ loops[1].oi
+VertexCounts(loops) == [i \in 1..Len(loops) |-> Len(loops[i].vs)]
+CumEdges(lens) == [i \in 1..Len(lens) |-> SumSeq(SubSeq(lens, 1, i - 1))]
+ZeroPoly == [loops |-> <<>>, hasHoles |-> FALSE, numVertices |-> 0, numEdges |-> 0, cum |-> <<>>]
+DecodeInto(recv, loops) ==
+    LET lens == VertexCounts(loops)
+        full == IsFullP(loops)
+    IN  [recv EXCEPT !.loops = loops, !.hasHoles = HasHoles(loops), !.numVertices = SumSeq(lens),
+                     !.numEdges = IF full THEN 0 ELSE SumSeq(lens),
+                     !.cum = IF ~full /\ Len(loops) > 12 THEN CumEdges(lens) ELSE <<>>]
+\* Decode(receiver holding prev, bytes) = Decode(fresh, bytes)
+ReceiverLaw(prevLoops, loops) ==
+    DecodeInto(DecodeInto(ZeroPoly, prevLoops), loops) = DecodeInto(ZeroPoly, loops)
+
+-----------------------------------------------------------------------------
 (* Model theorems (evaluated by the generators on every model value)        *)
 
 CoderLossless(xs, Wd) == DecSeq(CoderInit, EncSeq(CoderInit, xs, Wd), Wd) = xs
